@@ -31,7 +31,7 @@ pub static DEF: CheckDef = CheckDef {
 };
 
 fn families(t: Tier) -> Vec<(&'static str, u64)> {
-    vec![("uses", t.n(14_400, 14_400 * 8)), ("rand", t.n(10_000, 200_000)), ("optimizer", t.n(2_000, 100_000)), ("matmul-term", t.n(4_000, 100_000))]
+    vec![("uses", t.n(14_400, 14_400 * 8)), ("rand", t.n(10_000, 600_000)), ("optimizer", t.n(2_000, 300_000)), ("matmul-term", t.n(4_000, 300_000))]
 }
 fn floors(_t: Tier) -> Vec<(&'static str, u64)> {
     vec![("evaluations", 9_000), ("broadcast_gradients_compared", 6_000), ("multi_use_cases", 3_000), ("optimizer_updates_checked", 1_500)]
